@@ -157,6 +157,14 @@ func idxOf[T any](p *T, s []T) int {
 	return int((addr-base)/size) + 1
 }
 
+// stopDigit is the GTFS location_type digit of a stop type (the library's "platform" is digit 0 with a parent).
+func stopDigit(t gtfs.StopType) int {
+	if t == gtfs.StopType_Platform {
+		return 0
+	}
+	return int(t)
+}
+
 func decTok(f *float64) O {
 	if f == nil {
 		return abs.None[int]()
@@ -227,7 +235,7 @@ func Project(s *gtfs.Static) Result {
 		x := &s.Stops[i]
 		r.Stops = append(r.Stops, PStop{ID: tokOf(StopIDs, x.Id), Code: tokOf(Codes, x.Code), Name: tokOf(Names, x.Name),
 			Desc: tokOf(Names, x.Description), Zone: tokOf(Zones, x.ZoneId), Lon: decTok(x.Longitude), Lat: decTok(x.Latitude),
-			URL: tokOf(URLs, x.Url), Type: int(x.Type), Parent: idxOf(x.Parent, s.Stops), Tz: tokOf(TZs, x.Timezone),
+			URL: tokOf(URLs, x.Url), Type: stopDigit(x.Type), Parent: idxOf(x.Parent, s.Stops), Tz: tokOf(TZs, x.Timezone),
 			Wheelchair: int(x.WheelchairBoarding), PlatformCode: tokOf(Names, x.PlatformCode)})
 	}
 	for i := range s.Transfers {
@@ -270,10 +278,10 @@ func Project(s *gtfs.Static) Result {
 		r.Trips = append(r.Trips, p)
 	}
 	for _, w := range s.Warnings {
-		if _, ok := w.Kind.(warnings.AgencyMissingValues); ok {
-			r.Warnings = append(r.Warnings, PWarning{File: string(w.File), Row: w.RowNumber})
-		} else {
+		if _, ok := w.Kind.(warnings.MissingColumns); ok {
 			r.Warnings = append(r.Warnings, PWarning{File: fmt.Sprintf("%s:%T", w.File, w.Kind), Row: w.RowNumber})
+		} else { // a warning about a row, whatever its kind
+			r.Warnings = append(r.Warnings, PWarning{File: string(w.File), Row: w.RowNumber})
 		}
 	}
 	return r
